@@ -356,6 +356,10 @@ class Library(object):
                 return Builtin('list.extend', lambda I, a, k, o=o:
                                (I.heap_write(o, 'extend'),
                                 o.extend(I.iterate(a[0])))[1])
+        if isinstance(o, SymSeq):
+            if name == 'append':
+                return Builtin('list.append (symbolic list)',
+                               lambda I, a, k, o=o: self._symseq_append(I, o, a[0]))
         if isinstance(o, SetV):
             if name == 'add':
                 return Builtin('set.add', lambda I, a, k, o=o:
@@ -1372,6 +1376,15 @@ class Library(object):
         for x in xs:
             self._set_add(I, out, x)
         return out
+
+    def _symseq_append(self, I, o, x):
+        I.heap_write(o, 'append')
+        old_len, old_at = o.length, o.at
+        xt = z3str(x)
+        o.at = lambda i, old_at=old_at, old_len=old_len, xt=xt: z3.If(
+            (i if z3.is_expr(i) else z3.IntVal(i)) == old_len, xt, old_at(i))
+        o.length = z3.simplify(old_len + 1)
+        return None
 
     def _set_add(self, I, o, x):
         r = self.contains(o, x)
